@@ -163,12 +163,44 @@ pub fn run(ctx: &Ctx) -> Report {
             r.sample(|| case_json(joint, from, to, 1u64 << 51, 0));
         }
     });
+    // --- threshold sweep: ranges that are almost empty / almost a full turn / written with zeros of either sign
+    {
+        let lad: Vec<f64> = crate::common::ladder::ladder(&["constraints.rs"]).into_iter().filter(|d| *d >= 1e-8).collect();
+        let mut ranges: Vec<(f64, f64)> = vec![(-0.0, 0.0), (0.0, -0.0)];
+        for &d in &lad {
+            for base in [0.0f64, 0.6, -PI, 2.9] {
+                ranges.push((base, base + d));
+                ranges.push((base + d, base));
+                ranges.push((base - PI + d, base + PI - d));
+            }
+        }
+        let sizes2 = [ranges.len(), 3];
+        let n2 = par::product(&sizes2);
+        let srep = par::run(n2, |idx, r| {
+            let mut ix = [0usize; 2];
+            par::decode(idx, &sizes2, &mut ix);
+            let (from, to) = ranges[ix[0]];
+            let history = [0usize, 2, 5][ix[1]];
+            let joint = ix[0] % 6;
+            r.states += 1;
+            for k in draws(from, to) {
+                r.transitions += 1;
+                match eval(joint, from, to, k, history) {
+                    Ok(None) => r.skipped_boundary += 1,
+                    Ok(Some(_)) => r.sig(format!("special:{}:h{}:accepted", class(from, to), history)),
+                    Err((key, d)) => r.fail(format!("{key}/special-range"), n + idx, case_json(joint, from, to, k, history), d),
+                }
+            }
+        });
+        rep.merge(srep);
+        rep.set("special_ranges", json!({"ranges": ranges.len(), "ladder_values": lad.len()}));
+    }
     rep.traces_validated = rep.transitions;
     rep.rule = format!(
         "(from,to) on the {step_deg}-degree lattice of [-360,360]^2 (one joint at a time) x scripted unit draws {{0, 2^-52, i/64, 1-2^-52, \
          segment switch point +-{{2^-52, 2^-30}}}} x histories {{new, from_degrees, update_range over a narrow / narrow wrapping / unconstrained / wide / nearly-full earlier range}} fed to the real sampler through the ScriptedRng hook; the sampler is piecewise linear in the \
          draw with one breakpoint, so both ends and both sides of the breakpoint decide each piece; oracle = arc membership (and the library's \
-         own compliant()); results within 1e-9 of an arc end are skipped_boundary; signature = (range class, accepted)"
+         own compliant()); results within 1e-9 of an arc end are skipped_boundary; plus ranges of every ladder width (almost empty, almost a full turn both ways) and signed zeros; signature = (range class, accepted)"
     );
     rep.set("axes", json!({"step_deg": step_deg, "from_values": span, "to_values": span, "draws_per_range": "66 + up to 5 around the breakpoint"}));
     rep.assumptions.push("rand 0.9 maps a raw u64 r to the unit value (r >> 12) / 2^52 (checked: the script must be consumed exactly once per joint)".into());
